@@ -167,7 +167,7 @@ def worker_init() -> None:
     # enumerate perturbation targets once per base (deterministic walk)
     STATE["targets"] = {}
     STATE["base_errors"] = {}
-    for name in list(STATE["bases"]) + ["zoo0", "zoo1", "zoo2", "zoo3"]:
+    for name in list(STATE["bases"]) + ["somersault_renamed", "zoo0", "zoo1", "zoo2", "zoo3"]:
         try:
             with W.quiet():
                 db = load_base(name)
@@ -189,10 +189,42 @@ def worker_init() -> None:
 
 
 # ------------------------------------------------------------------ bases
+def renamed_pdx_blob(src: str, old_name: str, new_name: str) -> bytes:
+    """The same database with its DIAG-LAYER-CONTAINER renamed (a different database that has
+    the same layer names): container short name, DOCREFs to it and the member name."""
+    from xml.etree import ElementTree
+    out = io.BytesIO()
+    with zipfile.ZipFile(src) as zin, zipfile.ZipFile(out, "w", zipfile.ZIP_DEFLATED) as zout:
+        for n in zin.namelist():
+            data = zin.read(n)
+            if n.lower().endswith(".odx-d"):
+                root = ElementTree.fromstring(data)
+                dlc = root.find("DIAG-LAYER-CONTAINER")
+                if dlc is not None and dlc.findtext("SHORT-NAME") == old_name:
+                    dlc.find("SHORT-NAME").text = new_name  # type: ignore[union-attr]
+                    for el in root.iter():
+                        if el.get("DOCREF") == old_name and el.get("DOCTYPE") == "CONTAINER":
+                            el.set("DOCREF", new_name)
+                    data = ElementTree.tostring(root, encoding="utf-8", xml_declaration=True)
+                    n = new_name + ".odx-d"
+            zout.writestr(n, data)
+    return out.getvalue()
+
+
 def load_base(name: str):
     odxtools = STATE["odxtools"]
     if name in STATE["bases"]:
         return odxtools.load_pdx_file(STATE["bases"][name])
+    if name == "somersault_renamed":
+        blob = STATE.setdefault("zoo_pdx", {}).get(name)
+        if blob is None:
+            blob = renamed_pdx_blob(STATE["bases"]["somersault"], "somersault", "somersault_v2")
+            STATE["zoo_pdx"][name] = blob
+        from odxtools.database import Database
+        db = Database()
+        db.add_pdx_file(io.BytesIO(blob))
+        db.refresh()
+        return db
     if name.startswith("zoo"):
         # the zoo database as the parser sees it: built once, written once, loaded per run
         blob = STATE.setdefault("zoo_pdx", {}).get(name)
@@ -288,8 +320,18 @@ def enumerate_targets(db) -> List[Dict[str, Any]]:
     out: List[Dict[str, Any]] = []
 
     def visit(path, v, owner, fld):
+        if fld is None and isinstance(owner, list) and is_leaf(v) and v is not None and len(path) >= 2 \
+                and isinstance(path[-2], str) and not isinstance(v, bool):
+            # an item of a list of primitives (e.g. the numerators of rational coefficients)
+            holder = last_dc[0]
+            if holder is not None and not is_derived(type(holder).__name__, path[-2]) and path[-2] not in SKIP_FIELDS \
+                    and not path[-2].endswith(("_refs", "_snrefs")):
+                out.append({"path": path, "cls": type(holder).__name__, "field": path[-2] + "[]",
+                            "type": type(v).__name__, "kind": "leaf"})
+            return
         if fld is None or owner is None or not dataclasses.is_dataclass(owner):
             return
+        last_dc[0] = owner
         name = fld.name
         if name in SKIP_FIELDS or name.endswith(("_ref", "_refs", "_snref", "_snrefs", "_snpathref", "_snpathrefs")):
             return
@@ -306,6 +348,7 @@ def enumerate_targets(db) -> List[Dict[str, Any]]:
             out.append({"path": path, "cls": type(owner).__name__, "field": name, "type": t, "kind": "list"})
 
     seen: set = set()
+    last_dc: List[Any] = [None]
     for rname, r in roots(db):
         walk(r, [rname], visit, seen)
     return out
@@ -363,9 +406,10 @@ def new_value(target: Dict[str, Any], old: Any, vclass: str, n: int) -> Tuple[bo
             return False, None
         return True, ("enum", members[(members.index(old) + 1 + n) % len(members)].name)
     if isinstance(old, int):
-        return True, old + 1 + n
+        return True, [old + 1, old + 2, 1234567 + old, old + 3][n % 4]
     if isinstance(old, float):
-        return True, old + 0.5
+        # also values that need many significant digits or are very small / large
+        return True, [old + 0.5, old + 0.123456789012, 1234567.0 + old, 0.0009765625 + old][n % 4]
     if isinstance(old, str):
         if target["cls"] == "Description" and name == "text":
             return True, f"<p>verif {n}</p>"
@@ -511,7 +555,8 @@ def gen(rs: int, index: int, tier: str) -> Dict[str, Any]:
         cands = [t for t in STATE["targets"][base] if (t["cls"], t["field"]) == key]
         tgt = cands[h64("pick", rs) % len(cands)]
     else:
-        base = weighted(r, ["somersault", "somersault_modified", "zoo0", "zoo1", "zoo2", "zoo3"], [5, 2, 2, 2, 2, 2])
+        base = weighted(r, ["somersault", "somersault_modified", "somersault_renamed", "zoo0", "zoo1", "zoo2", "zoo3"],
+                        [5, 2, 2, 2, 2, 2, 2])
         vclass = weighted(r, ["plain", "meta", "none"], [6, 3, 1])
         tgts = STATE["targets"][base]
         tgt = r.choice(tgts) if vclass != "none" and tgts else None
@@ -521,7 +566,13 @@ def gen(rs: int, index: int, tier: str) -> Dict[str, Any]:
                 "kind": tgt["kind"], "vclass": vclass, "n": r.randint(0, 3)}
     jump = r.choice(JUMPS)
     e1, e2 = r.choice(ENTRIES), r.choice(ENTRIES)
-    return {"base": base, "pert": pert, "entries": [e1, e2], "orders": [r.randint(0, 10**6), r.randint(0, 10**6)],
+    # history inside the run: in some runs another database is written first by the same process
+    # (the writer keeps module-level state; what it wrote before must not matter)
+    rp = S.rng("prelude")
+    prelude = None
+    if rp.random() < 0.3:
+        prelude = rp.choice([b for b in ["somersault", "somersault_modified", "somersault_renamed", "zoo0", "zoo2"] if b != base])
+    return {"base": base, "prelude": prelude, "pert": pert, "entries": [e1, e2], "orders": [r.randint(0, 10**6), r.randint(0, 10**6)],
             "index_pos": [r.choice(["first", "last", "middle", "keep"]), r.choice(["first", "last", "middle", "keep"])],
             "clock": [1_700_000_000.0 + r.randint(0, 10**7), jump[0], jump[1]]}
 
@@ -664,6 +715,12 @@ def execute(trace: Dict[str, Any]) -> Dict[str, Any]:
                 outcome = "base-failed"
                 pert = None
                 db0 = None
+            if db0 is not None and trace.get("prelude"):
+                try:
+                    odxtools.write_pdx_file(os.path.join(workdir, "prelude.pdx"), load_base(trace["prelude"]))
+                    faults["other_database_written_before"] = 1
+                except Exception as e:  # noqa: BLE001 - judged by the runs that use it as base
+                    log.ev("sim", "prelude-failed", exc_sig(e))
             old = new = None
             if pert and db0 is not None:
                 sets["class_field_exercised"].add(h64(cls, field))
@@ -843,6 +900,7 @@ def path_str(path: List[Any]) -> str:
 # ------------------------------------------------------------------ minimisation
 def trace_size(trace: Dict[str, Any]) -> int:
     n = 1 if trace.get("pert") else 0
+    n += 1 if trace.get("prelude") else 0
     n += sum(1 for e in trace["entries"] if e != "load_pdx_file")
     n += sum(1 for p in trace["index_pos"] if p != "keep")
     n += 0 if trace["clock"][1] == "none" else 1
@@ -852,6 +910,7 @@ def trace_size(trace: Dict[str, Any]) -> int:
 def shrink(trace: Dict[str, Any], still_fails) -> Dict[str, Any]:
     cur = trace
     for cand in (
+        {**cur, "prelude": None},
         {**cur, "clock": [cur["clock"][0], "none", 0.0]},
         {**cur, "index_pos": ["keep", "keep"]},
         {**cur, "entries": ["load_pdx_file", cur["entries"][1]]},
